@@ -383,6 +383,11 @@ pub fn step_monitors(props: &[&str], pre: &Sim, act: &Act, ap: &Applied, post: &
                     _ => None,
                 })
                 .collect();
+            if has(props, "C04") && ap.out.sub_errors.iter().any(|e| e.contains("MsgMint: zero amount")) {
+                // the contract approved the stake and asked the token factory to mint nothing (the chain
+                // then refused): "never zero" is the contract's own obligation
+                v.push(viol("C04", "stake.mint.zero", format!("stake {amt} at staked {n} / LST {l}: the contract approved a mint of zero")));
+            }
             if ok && has(props, "C04") {
                 let want = if n == 0 { Some(amt) } else { mul_div(amt, l, n) };
                 if minted.len() != 1 || Some(minted[0]) != want {
